@@ -3,6 +3,9 @@
 package internal
 
 import (
+	"strings"
+	"unicode"
+
 	"go.uber.org/thriftrw/ast"
 )
 
@@ -94,8 +97,17 @@ func h11b() {
 	s := verifString(n)
 	out := ParseDocstring(s)
 	verifAssert(len(out) <= n, "docstring-not-longer")
+	// whitespace-only lines of the comment come back as empty lines
+	for _, l := range strings.Split(out, "\n") {
+		if n > 4 {
+			break // this assertion multiplies the paths; stated bound: inputs of <= 4 bytes
+		}
+		verifAssert(l == "" || strings.IndexFunc(l, zzNotSpace) >= 0, "docstring-whitespace-only-line-is-empty")
+	}
 	verifReached("end")
 }
+
+func zzNotSpace(r rune) bool { return !unicode.IsSpace(r) }
 
 // h11c: a literal in context through the whole real lexer and parser.
 func h11c() {
